@@ -461,6 +461,26 @@ fn main() {
         sum.count("kind:concurrent-join"); sum.add("calls_total", outs.len() as u64); sum.evaluations += 1; id += 1;
     }
 
+    // ---- known class lru-eviction: more than MAX_RATE_LIMIT_KEYS distinct keys between two uses of a key
+    {
+        let c = Cfg { window_ns: 3600 * NS, max: 1, burst: 1 };
+        let t0 = Instant::now();
+        let eng: Engine<u64> = Engine::new(c.engine_cfg());
+        let first = eng.try_consume_key(&0);
+        let second = eng.try_consume_key(&0);
+        for k in 1..=100_000u64 { eng.try_consume_key(&k); }
+        let third = eng.try_consume_key(&0);
+        let t = t0.elapsed().as_nanos();
+        sum.count("kind:lru-eviction-probe");
+        if first && !second && third && (c.max as u128) * t < c.window_ns {
+            sum.case(id, json!({"kind": "lru-eviction-probe", "tags": ["lru-eviction"], "cfg": c.json(),
+                "history": "key 0 twice, keys 1..=100000 once each, key 0 again", "observed_for_key_0": [first, second, third], "elapsed_ns": t.to_string()}));
+            sum.violation(id, "key 0 admitted twice within a burst (max 1 per hour) after 100000 other keys evicted its bucket from the LRU", &["lru-eviction"],
+                json!({"observed_for_key_0": [first, second, third]}));
+            id += 1;
+        }
+    }
+
     // ---- refill cases
     if let Ok(rs) = refill_handle.join() {
         for o in rs {
